@@ -36,13 +36,13 @@ Definition ok_ground (c : gcase) : bool :=
   end.
 
 (* which clause of wf_np fails (0 = well formed):
-   1 duplicate name, 2 father type, 4 object type, 8 fluent signature, 16 an action (parameters / references),
+   1 duplicate name, 2 father type, 4 object type, 8 fluent signature (duplicate parameter name / undeclared type), 16 an action (parameters / references),
    32 references of goals / constraints / initial values / metrics, 64 reference to an undeclared action *)
 Definition wf_code (P : nproblem) : N :=
   ((if nodupb (all_names P) then 0 else 1) +
    (if forallb (fun t => declared_type P (snd t)) (np_types P) then 0 else 2) +
    (if forallb (fun o => negb (String.eqb (snd o) "") && declared_type P (snd o)) (np_objects P) then 0 else 4) +
-   (if forallb (fun f => forallb (declared_type P) (snd f)) (np_fluents P) then 0 else 8) +
+   (if forallb (fun f => nodupb (map fst (snd f)) && forallb (fun p => declared_type P (snd p)) (snd f)) (np_fluents P) then 0 else 8) +
    (if forallb (fun a => nodupb (map fst (na_params a)) && forallb (fun p => declared_type P (snd p)) (na_params a)
                          && refs_ok P (map fst (na_params a)) (na_refs a)) (np_actions P) then 0 else 16) +
    (if refs_ok P [] (np_refs P) then 0 else 32) +
@@ -53,7 +53,7 @@ Proof.
   unfold wf_code, wf_np.
   destruct (nodupb (all_names P)); destruct (forallb (fun t => declared_type P (snd t)) (np_types P));
   destruct (forallb (fun o => negb (String.eqb (snd o) "") && declared_type P (snd o)) (np_objects P));
-  destruct (forallb (fun f => forallb (declared_type P) (snd f)) (np_fluents P));
+  destruct (forallb (fun f => nodupb (map fst (snd f)) && forallb (fun p => declared_type P (snd p)) (snd f)) (np_fluents P));
   destruct (forallb _ (np_actions P)); destruct (refs_ok P [] (np_refs P));
   destruct (forallb _ (np_action_refs P)); simpl; split; intros H; try reflexivity; try discriminate.
 Qed.
